@@ -248,7 +248,7 @@ func (g *c20Gen) i64() int64 {
 	}
 }
 
-var c20Words = []string{"", "a", "gno.land/r/demo/users", "ugnot", "héllo wörld ✓", "x\x00y", "\"quoted\"\n", "0", "main.gno", strings.Repeat("z", 130)}
+var c20Words = []string{"", "a", "gno.land/r/demo/users", "ugnot", "héllo wörld ✓", "x\x00y", "\"quoted\"\n", "0", "main.gno", strings.Repeat("z", 130), strings.Repeat("package main\n", 20)}
 
 func (g *c20Gen) str() string {
 	k := g.n(len(c20Words) + 3)
